@@ -59,7 +59,7 @@ pub struct ServerSession {
     next_stream_id: u32,
     peer_window_ack_size: Option<u32>,
     bytes_received: u64,
-    bytes_received_since_last_ack: u32,
+    bytes_received_since_last_ack: u64,
 }
 
 impl ServerSession {
@@ -151,10 +151,11 @@ impl ServerSession {
         self.bytes_received += bytes.len() as u64;
 
         if let Some(peer_ack_size) = self.peer_window_ack_size {
-            self.bytes_received_since_last_ack += bytes.len() as u32;
-            if self.bytes_received_since_last_ack >= peer_ack_size {
+            self.bytes_received_since_last_ack += bytes.len() as u64;
+            if self.bytes_received_since_last_ack >= peer_ack_size as u64 {
+                // The field is 32 bits wide; only a window close to 2^32 lets the count exceed it
                 let ack_message = RtmpMessage::Acknowledgement {
-                    sequence_number: self.bytes_received_since_last_ack,
+                    sequence_number: self.bytes_received_since_last_ack.min(u32::MAX as u64) as u32,
                 };
                 let ack_payload = ack_message.into_message_payload(self.get_epoch(), 0)?;
                 let ack_packet = self.serializer.serialize(&ack_payload, false, false)?;
